@@ -88,6 +88,15 @@ static inline char *str_transform_inplace(str *s, char (*f)(char), char (*fr)(ch
   char *e = shim_transform_char2(s->data, s->data + s->len, s->data, f, fr);
   s->id = (tag == 0) ? LC_CLASS(s->id) : 0;
   return e; }
+/* std::string::find(char, pos): first index >= pos holding the character, npos ((size_t)-1) when there is none */
+static inline unsigned long str_find_char(const str *s, char c, unsigned long pos) {
+  unsigned long i = pos;
+  while (i < s->len)
+    __CPROVER_assigns(i)
+    __CPROVER_loop_invariant(i >= pos)
+    __CPROVER_decreases(s->len - i)
+  { if (s->data[i] == c) return i; i++; }
+  return (unsigned long)-1; }
 /* std::to_string / number formatting: the digits are opaque (libc), the length is between 1 and 330 bytes */
 static inline str str_from_num(double v) {
   unsigned long n = nondet_ulong(); __CPROVER_assume(n >= 1 && n <= 330);
